@@ -30,6 +30,8 @@ def tasks(tier, seed):
 def extra(led, tier, seed):
     from contracts import gemini_invariance, lean_bounds
     led.extend(gemini_invariance.bounded())
+    from contracts import gemini_registry
+    led.extend(o for o in gemini_registry.frame_obligations() if ".compute_affinity" not in o.name)
     from contracts import gemini_large
     led.extend(gemini_large.obligations(seed, tier))
     led.extend(lean_bounds.obligations(tier))
